@@ -101,6 +101,24 @@ def _retarget(prog, t, module):
     return tuple(_retarget(prog, x, module) if isinstance(x, tuple) else x for x in t)
 
 
+_COVERED = None
+
+
+def covered_functions(prog):
+    """Qualified names (actual and reference) of every function that has a reviewed form."""
+    global _COVERED  # noqa: PLW0603
+    if _COVERED is None:
+        out = set()
+        for name, obj in list(globals().items()):
+            items = getattr(obj, "kernel_items", None)
+            if items:
+                for it in items:
+                    out.add(it[0])
+                    out.add(it[1] if it[1].startswith("lcmref.") else f"{REF}.{it[1]}")
+        _COVERED = frozenset(out)
+    return _COVERED
+
+
 def _loops_of(prog, q):
     return sorted((lid for lid, lp in prog.loops.items() if lp.func == q and "@" not in lid),
                   key=lambda x: int(x.rsplit("loop", 1)[1]))
@@ -131,10 +149,24 @@ def _loop_names_in_order(lp):
     return order
 
 
+def _pure_builder(prog, lid):
+    """Every name carried by the loop is either built comprehension-style or a temporary of the body."""
+    lp = prog.loops[lid]
+    ok_any = False
+    for n, nxt in lp.next.items():
+        if _loop_as_comp(prog, lid, n) is not None:
+            ok_any = True
+        elif any(is_term(x) and x[0] == "carried" and x[1] == lid for x in walk(nxt)):
+            return False  # a genuine accumulation
+    return ok_any
+
+
 def _loop_pieces(prog, q):
     out = []
     for k, lid in enumerate(_loops_of(prog, q)):
         lp = prog.loops[lid]
+        if _pure_builder(prog, lid):
+            continue  # compared through the comprehension it is equivalent to
         out.append((f"loop {k + 1} iterable", lp.iter))
         for i, n in enumerate(_loop_names_in_order(lp)):
             out.append((f"loop {k + 1} update of variable #{i + 1}", lp.next[n]))
@@ -148,7 +180,11 @@ def _loop_name_map(prog, ref_q, actual_q):
     la, lr = _loops_of(prog, actual_q), _loops_of(prog, ref_q)
     for a, r in zip(la, lr, strict=False):
         na, nr = _loop_names_in_order(prog.loops[a]), _loop_names_in_order(prog.loops[r])
-        for x, y in zip(nr, na, strict=False):
+        # identical names first (the common case), the rest by order of first binding
+        same = [n for n in nr if n in na]
+        for n in same:
+            m[(r, n)] = (a, n)
+        for x, y in zip([n for n in nr if n not in same], [n for n in na if n not in same], strict=False):
             m[(r, x)] = (a, y)
         # loop targets
         ta = [n for (lid_, n) in prog.loopvar_paths if lid_ == a]
@@ -384,6 +420,139 @@ def _free_names(fnode):
     return sorted(loads - bound)
 
 
+# ---------------------------------------------------------------------------------------
+# loops that only build a list / dict  ==  comprehensions
+# ---------------------------------------------------------------------------------------
+
+
+def _shift_bv(t, by):
+    if not isinstance(t, tuple):
+        return t
+    if is_term(t) and t[0] == "bv" and len(t) == 3:
+        return ("bv", t[1] + by, t[2])
+    return tuple(_shift_bv(x, by) if isinstance(x, tuple) else x for x in t)
+
+
+def _loop_as_comp(prog, lid, name):
+    """If the loop only appends to / sets items of ``name``: (kind, elt, gens, init) else None."""
+    lp = prog.loops.get(lid)
+    if lp is None:
+        return None
+    nxt, init = lp.next.get(name), lp.init.get(name)
+    carried = ("carried", lid, name)
+    if nxt is None or init is None or init == ("undef",):
+        return None
+    conds = []
+    cur = nxt
+    while cur[0] in ("phi", "ifexp"):
+        if cur[3] == carried:
+            conds.append(cur[1])
+            cur = cur[2]
+        elif cur[2] == carried:
+            conds.append(("unop", "not", cur[1]))
+            cur = cur[3]
+        else:
+            return None
+    if cur[0] == "mut" and cur[2] == "append" and cur[1] == carried and len(cur[3]) == 1 and not cur[4]:
+        kind, elt = "list", cur[3][0]
+    elif cur[0] == "setitem" and cur[1] == carried:
+        kind, elt = "dict", (cur[2], cur[3])
+    else:
+        return None
+    body = (elt, tuple(conds))
+    # no dependence on anything carried by this loop (an accumulation is not a comprehension)
+    if any(is_term(x) and x[0] == "carried" and x[1] == lid for x in walk(body)):
+        return None
+    # loop variables -> bound variables of the comprehension
+    paths = sorted(((path, n) for (l2, n), path in prog.loopvar_paths.items() if l2 == lid), key=lambda pn: pn[0])
+    if not paths or any(len(p) > 1 for p, _n in paths):
+        return None
+    mapping = {("loopvar", lid, n): ("bv", 1, i) for i, (_p, n) in enumerate(paths)}
+    target = mapping[("loopvar", lid, paths[0][1])] if paths[0][0] == () else ("tuple", tuple(mapping[("loopvar", lid, n)] for _p, n in paths))
+
+    def sub(t):
+        if not isinstance(t, tuple):
+            return t
+        if is_term(t) and t in mapping:
+            return mapping[t]
+        return tuple(sub(x) if isinstance(x, tuple) else x for x in t)
+
+    elt2 = sub(_shift_bv(elt, 1))
+    conds2 = tuple(sub(_shift_bv(c, 1)) for c in conds)
+    return kind, elt2, ((target, lp.iter, conds2),), init
+
+
+def comprehend(prog, t, depth=0):
+    """Replace after-loop values of pure list/dict building loops by the equivalent comprehension."""
+    if not isinstance(t, tuple) or depth > 40:
+        return t
+    if is_term(t) and t[0] == "loopout" and len(t) == 3:
+        r = _loop_as_comp(prog, t[1], t[2])
+        if r is not None:
+            kind, elt, gens, init = r
+            comp = ("comp", kind, comprehend(prog, elt, depth + 1), tuple(
+                (tg, comprehend(prog, it, depth + 1), tuple(comprehend(prog, c, depth + 1) for c in cs)) for tg, it, cs in gens))
+            init = comprehend(prog, init, depth + 1)
+            if kind == "list":
+                return comp if init == ("list", ()) else ("binop", "+", init, ("call", ("glob", "builtins.list"), (comp,), ()))
+            return comp if init == ("dict", ()) else ("binop", "|", init, comp)
+    return tuple(comprehend(prog, x, depth) if isinstance(x, tuple) else x for x in t)
+
+
+def fuse_comps(t):
+    """for (a, b) in (f(x) for x in X)  ==  for x in X with a := f(x)[0], b := f(x)[1]."""
+    if not isinstance(t, tuple):
+        return t
+    t = tuple(fuse_comps(x) if isinstance(x, tuple) else x for x in t)
+    if is_term(t) and t[0] == "comp" and len(t) == 4 and len(t[3]) == 1:
+        tg, it, conds = t[3][0]
+        if is_term(it) and it[0] == "comp" and it[1] in ("gen", "list") and len(it[3]) == 1 and not it[3][0][2]:
+            inner_elt = it[2]
+            mapping = {}
+            if is_term(tg) and tg[0] == "bv":
+                mapping[tg] = inner_elt
+            elif is_term(tg) and tg[0] == "tuple" and all(x[0] == "bv" for x in tg[1]):
+                for i, b in enumerate(tg[1]):
+                    if is_term(inner_elt) and inner_elt[0] == "tuple" and len(inner_elt[1]) == len(tg[1]):
+                        mapping[b] = inner_elt[1][i]
+                    else:
+                        mapping[b] = ("sub", inner_elt, ("const", i))
+            if mapping:
+                def sub(x):
+                    if not isinstance(x, tuple):
+                        return x
+                    if is_term(x) and x in mapping:
+                        return mapping[x]
+                    return tuple(sub(y) if isinstance(y, tuple) else y for y in x)
+
+                elt = tuple(sub(e) for e in t[2]) if t[1] == "dict" else sub(t[2])
+                return ("comp", t[1], elt, ((it[3][0][0], it[3][0][1], tuple(sub(c) for c in conds)),))
+    return t
+
+
+def renumber_bv(t, level=1, env=None):
+    """Bound variables numbered by the nesting level of the comprehension/lambda that binds them."""
+    env = env or {}
+    if not isinstance(t, tuple):
+        return t
+    if is_term(t) and t[0] == "bv" and len(t) == 3:
+        return env.get(t, t)
+    if is_term(t) and t[0] == "comp" and len(t) == 4:
+        env2 = dict(env)
+        gens = []
+        k = 0
+        for tg, it, conds in t[3]:
+            it2 = renumber_bv(it, level + 1, env2)
+            for b in [x for x in walk(tg) if x[0] == "bv"] if is_term(tg) else []:
+                env2[b] = ("bv", level, k)
+                k += 1
+            gens.append((renumber_bv(tg, level + 1, env2), it2, tuple(renumber_bv(c, level + 1, env2) for c in conds)))
+        elt = t[2]
+        elt2 = tuple(renumber_bv(x, level + 1, env2) for x in elt) if t[1] == "dict" else renumber_bv(elt, level + 1, env2)
+        return ("comp", t[1], elt2, tuple(gens))
+    return tuple(renumber_bv(x, level, env) if isinstance(x, tuple) else x for x in t)
+
+
 def resort_caps(t):
     """Captured values of reified closures in a canonical order (after all renamings)."""
     if not isinstance(t, tuple):
@@ -477,8 +646,10 @@ def compare_factory(ctx: Ctx, actual_q: str, ref_name: str, what: str, *, soft: 
         return tuple(canon(x, idx, is_ref) if isinstance(x, tuple) else x for x in t)
 
     def prep(t, idx, is_ref):
-        if not soft:
-            t = prog.expand(t)  # plumbing functions are compared as written (helpers are compared on their own)
+        # helpers that have a reviewed form of their own stay opaque (they are compared separately); any other
+        # helper (e.g. one that a refactoring extracted) is inlined
+        t = prog.expand(t, skip=covered_functions(prog))
+        t = renumber_bv(fuse_comps(comprehend(prog, t)))
         t = reify_closures(prog, t)
         t = strip_messages(canon(t, idx, is_ref))
         return resort_caps(_retarget(prog, t, ia.module) if is_ref else t)
@@ -535,6 +706,8 @@ def compare_factory(ctx: Ctx, actual_q: str, ref_name: str, what: str, *, soft: 
                 bad = (label, first_difference(a, r, label), ra, rr)
     na_g = [(tuple(norm(prep(c, idx_a, False)) for c in conds if c[0] != "in-loop"), _exc_class(e)) for conds, e in ga]
     nr_g = [(tuple(norm(prep(c, idx_r, True)) for c in conds if c[0] != "in-loop"), _exc_class(e)) for conds, e in gr]
+    if na_g != nr_g and guards_equivalent(na_g, nr_g):
+        nr_g = na_g  # same decision function over the same atomic conditions
     if na_g != nr_g:
         n_sites, sz = diff_sites(tuple(na_g), tuple(nr_g))
         total_sites += n_sites
@@ -705,6 +878,72 @@ def _mask_func(t, q):
     return tuple(_mask_func(x, q) if isinstance(x, tuple) else x for x in t)
 
 
+def _atoms(c, out):
+    if is_term(c) and c[0] == "not" and len(c) == 2:
+        _atoms(c[1], out)
+    elif is_term(c) and c[0] == "unop" and c[1] == "not":
+        _atoms(c[2], out)
+    elif is_term(c) and c[0] == "boolop":
+        for x in c[2]:
+            _atoms(x, out)
+    elif is_term(c) and c[0] == "cmp" and c[1] == ("!=",):
+        out.add(("cmp", ("==",), c[2]))
+    else:
+        out.add(c)
+
+
+def _ev(c, val):
+    if is_term(c) and c[0] == "not" and len(c) == 2:
+        return not _ev(c[1], val)
+    if is_term(c) and c[0] == "unop" and c[1] == "not":
+        return not _ev(c[2], val)
+    if is_term(c) and c[0] == "boolop":
+        vs = [_ev(x, val) for x in c[2]]
+        return all(vs) if c[1] == "and" else any(vs)
+    if is_term(c) and c[0] == "cmp" and c[1] == ("!=",):
+        return not val[("cmp", ("==",), c[2])]
+    return val[c]
+
+
+def guards_equivalent(ga, gb):
+    """Two lists of (conditions, exception class) raise the same exception for every truth
+    assignment of their atomic conditions (x == K1 and x == K2 with K1 != K2 are exclusive)."""
+    import itertools
+
+    atoms = set()
+    for g in (ga, gb):
+        for conds, _e in g:
+            for c in conds:
+                _atoms(c, atoms)
+    atoms = sorted(atoms, key=repr)
+    if len(atoms) > 10:
+        return False
+    excl = []
+    for i, a in enumerate(atoms):
+        for b in atoms[i + 1:]:
+            if a[0] == "cmp" and b[0] == "cmp" and a[1] == b[1] == ("==",):
+                xa, xb = set(a[2]), set(b[2])
+                common = xa & xb
+                if len(common) == 1 and len(xa) == 2 and len(xb) == 2:
+                    ka, kb = next(iter(xa - common)), next(iter(xb - common))
+                    if ka != kb and all(k[0] in ("const", "attr", "glob", "class") for k in (ka, kb)):
+                        excl.append((a, b))
+
+    def decide(g, val):
+        for conds, e in g:
+            if all(_ev(c, val) for c in conds):
+                return e
+        return None
+
+    for bits in itertools.product([False, True], repeat=len(atoms)):
+        val = dict(zip(atoms, bits, strict=True))
+        if any(val[a] and val[b] for a, b in excl):
+            continue
+        if decide(ga, val) != decide(gb, val):
+            return False
+    return True
+
+
 def _all_params(node):
     a = node.args
     out = [x.arg for x in a.posonlyargs + a.args]
@@ -723,6 +962,7 @@ def factory_rule(name, items, *, soft=False):
             compare_factory(ctx, actual_q, ref_name, what, soft=soft)
         ctx.floor("kernels", len(items))
 
+    r.kernel_items = [(a, b, c) for a, b, c in items]
     return r
 
 
@@ -730,9 +970,10 @@ def kernel_rule(name, items):
     @rule(name)
     def r(ctx: Ctx):
         for actual_q, ref_name, what, deco in items:
-            compare(ctx, actual_q, ref_name, what, decorated=deco)
+            compare_factory(ctx, actual_q, ref_name, what)
         ctx.floor("kernels", len(items))
 
+    r.kernel_items = [(a, b, c) for a, b, c, _d in items]
     return r
 
 
